@@ -1775,7 +1775,6 @@ package sarama
 //@   loop groupmembers: invariant[only_existing] forall k :: 0 <= k && k < len(topicPartitions) ==> haskey(topics, topicPartitions[k].topic) && exists j :: 0 <= j && j < len(topics[topicPartitions[k].topic]) && topics[topicPartitions[k].topic][j] == topicPartitions[k].partition
 //@   loop subscriptions: invariant[only_existing] forall k :: 0 <= k && k < len(topicPartitions) ==> haskey(topics, topicPartitions[k].topic) && exists j :: 0 <= j && j < len(topics[topicPartitions[k].topic]) && topics[topicPartitions[k].topic][j] == topicPartitions[k].partition
 //@   loop pairs: invariant[only_existing] forall k :: 0 <= k && k < len(topicPartitions) ==> haskey(topics, topicPartitions[k].topic) && exists j :: 0 <= j && j < len(topics[topicPartitions[k].topic]) && topics[topicPartitions[k].topic][j] == topicPartitions[k].partition
-//@   loop pairs: invariant tp == topicPartitions[$i] || true
 //@   loop groupmembers: invariant[every_pair] forall t string, j int :: haskey(topics, t) && 0 <= j && j < len(topics[t]) ==> exists k :: 0 <= k && k < len(topicPartitions) && topicPartitions[k].topic == t && topicPartitions[k].partition == topics[t][j]
 //@   loop subscriptions: invariant[every_pair] forall t string, j int :: haskey(topics, t) && 0 <= j && j < len(topics[t]) ==> exists k :: 0 <= k && k < len(topicPartitions) && topicPartitions[k].topic == t && topicPartitions[k].partition == topics[t][j]
 //@   loop pairs: invariant[every_pair] forall t string, j int :: haskey(topics, t) && 0 <= j && j < len(topics[t]) ==> exists k :: 0 <= k && k < len(topicPartitions) && topicPartitions[k].topic == t && topicPartitions[k].partition == topics[t][j]
@@ -1805,3 +1804,32 @@ package sarama
 // the cursor i only grows; it stays far below 2^63 for any plan that can be computed (A-mathint)
 //@   math_ints
 //@   nosafety
+
+// Range strategy. A-float: float64 arithmetic is treated as exact real arithmetic. rangeBound(i, n, m) is the
+// boundary floor(i * n/m + 1/2) the code computes; its arithmetic properties (0 at 0, n at m, monotone, steps of
+// floor(n/m) or floor(n/m)+1) are lemmas proved in Lean 4 / Mathlib (lean/RangeBound.lean in the verification
+// directory) and imported here as axioms.
+// (rangebound / rangestep are functions of the verifier's prelude, defined over the reals as floor(i*n/m + 1/2) and
+// floor(n/m); the four axioms are the theorems rb_zero, rb_full, rb_mono and rb_step of lean/RangeBound.lean.)
+//@ lean[rangebound] lean/RangeBound.lean props C08 C13
+//@ axiom[rangebound] forall n int, m int :: rangebound(0, n, m) == 0
+//@ axiom[rangebound] forall n int, m int :: m > 0 ==> rangebound(m, n, m) == n
+//@ axiom[rangebound] forall i int, j int, n int, m int :: n >= 0 && m > 0 && i <= j ==> rangebound(i, n, m) <= rangebound(j, n, m)
+//@ axiom[rangebound] forall i int, n int, m int :: rangebound(i, n, m) + rangestep(n, m) <= rangebound(i + 1, n, m) && rangebound(i + 1, n, m) <= rangebound(i, n, m) + rangestep(n, m) + 1
+
+// Every member i of the topic's (sorted) subscribers gets the contiguous slice
+// partitions[rangebound(i) : rangebound(i+1)]: the slices are in range, adjacent, start at 0 and end at
+// len(partitions) (so every partition goes to exactly one subscriber), and their sizes differ by at most one.
+//@ func BalanceStrategyRange#lit0(plan, memberIDs, topic, partitions) props C08 C13
+//@   requires plan != nil && len(memberIDs) > 0
+//@   requires forall m string :: haskey(plan, m) ==> plan[m] != nil
+//@   callsite BalanceStrategyPlan.Add: requires[slice_of_member_i] $memberID == memberIDs[i] && $topic == topic && off($partitions) == off(partitions) + rangebound(i, len(partitions), len(memberIDs)) && arr($partitions) == arr(partitions) && len($partitions) == rangebound(i + 1, len(partitions), len(memberIDs)) - rangebound(i, len(partitions), len(memberIDs))
+//@   callsite BalanceStrategyPlan.Add: requires[in_range] 0 <= rangebound(i, len(partitions), len(memberIDs)) && rangebound(i, len(partitions), len(memberIDs)) <= rangebound(i + 1, len(partitions), len(memberIDs)) && rangebound(i + 1, len(partitions), len(memberIDs)) <= len(partitions)
+//@   callsite BalanceStrategyPlan.Add: requires[sizes_differ_by_at_most_one] rangestep(len(partitions), len(memberIDs)) <= len($partitions) && len($partitions) <= rangestep(len(partitions), len(memberIDs)) + 1
+//@   loop 0: invariant plan != nil && forall m string :: haskey(plan, m) ==> plan[m] != nil
+//@   math_ints
+
+// Sticky strategy: stickyBalanceStrategy.Plan and its helpers are outside the contract verifier's reach; a bounded
+// stand-in (exhaustive over small group shapes, chains of rebalances with stale and conflicting user data, run on
+// the real code) takes their place. It is labelled bounded in the evidence and is not counted as proved.
+//@ bounded[sticky] bounded/sticky_bounded_test.go TestVerifBoundedSticky props C08 C13
